@@ -592,7 +592,8 @@ def rule_shared_tree(ctx):
     fs_stores = [n for n in walk_no_nested(mi) if isinstance(n, ast.Assign) and any(src(t) == "self.fs" for t in n.targets)]
     if not fs_stores:
         raise AnalysisError("anchor=MemoryPathIO.__init__ self.fs store not found")
-    adopts = [n for n in fs_stores if isinstance(n.value, ast.Name) and n.value.id == stp]
+    adopts = [x for n in fs_stores for x in ([n.value] if isinstance(n.value, ast.Name) else [b for i_ in ast.walk(n.value) if isinstance(i_, ast.IfExp) for b in (i_.body, i_.orelse)])
+              if isinstance(x, ast.Name) and x.id == stp]
     ok = False
     for n in adopts:
         ok = any(isinstance(t, ast.Compare) and isinstance(t.ops[0], (ast.Is, ast.IsNot)) and isinstance(t.comparators[0], ast.Constant) and t.comparators[0].value is None and src(t.left) == stp
